@@ -201,11 +201,14 @@ impl<T, Ptr: PointerFamily> MetaSlotMap<T, Ptr> {
 
     pub(crate) unsafe fn contains_impl(&self, key: SlotMapKey) -> bool {
         self.verify_init("contains()");
-        self.idx_to_data[key.0] != INVALID
+        key.0 < self.idx_to_data.len() && self.idx_to_data[key.0] != INVALID
     }
 
     pub(crate) unsafe fn get_impl(&self, key: SlotMapKey) -> Option<&T> {
         self.verify_init("get()");
+        if key.0 >= self.idx_to_data.len() {
+            return None;
+        }
         match self.idx_to_data[key.0] {
             INVALID => None,
             n => Some(self.data[n].as_ref().expect(
@@ -216,6 +219,9 @@ impl<T, Ptr: PointerFamily> MetaSlotMap<T, Ptr> {
 
     pub(crate) unsafe fn get_mut_impl(&mut self, key: SlotMapKey) -> Option<&mut T> {
         self.verify_init("get_mut()");
+        if key.0 >= self.idx_to_data.len() {
+            return None;
+        }
         match self.idx_to_data[key.0] {
             INVALID => None,
             n => Some(self.data[n].as_mut().expect(
